@@ -339,6 +339,12 @@ func (hs *serverHandshakeState) checkForResumption() bool {
 	if sessionHasClientCerts && c.config.ClientAuth == NoClientCert {
 		return false
 	}
+	// The certificates in the ticket were accepted under the policy in force when it was
+	// issued. If they do not satisfy the current policy, fall back to a full handshake
+	// instead of failing the connection while resuming.
+	if sessionHasClientCerts && !c.sessionClientCertsAcceptable(hs.sessionState.certificates) {
+		return false
+	}
 
 	return true
 }
@@ -802,4 +808,33 @@ func (hs *serverHandshakeState) clientHelloInfo() *ClientHelloInfo {
 	}
 
 	return hs.cachedClientHelloInfo
+}
+
+// sessionClientCertsAcceptable reports whether the client certificates stored in a
+// session ticket would be accepted by processCertsFromClient under the current
+// configuration. It sends no alert.
+func (c *Conn) sessionClientCertsAcceptable(certificates [][]byte) bool {
+	certs := make([]*x509.Certificate, len(certificates))
+	for i, asn1Data := range certificates {
+		cert, err := x509.ParseCertificate(asn1Data)
+		if err != nil {
+			return false
+		}
+		certs[i] = cert
+	}
+	if c.config.ClientAuth >= VerifyClientCertIfGiven && len(certs) > 0 {
+		opts := x509.VerifyOptions{
+			Roots:         c.config.ClientCAs,
+			CurrentTime:   c.config.time(),
+			Intermediates: x509.NewCertPool(),
+			KeyUsages:     []x509.ExtKeyUsage{x509.ExtKeyUsageClientAuth},
+		}
+		for _, cert := range certs[1:] {
+			opts.Intermediates.AddCert(cert)
+		}
+		if _, err := certs[0].Verify(opts); err != nil {
+			return false
+		}
+	}
+	return true
 }
